@@ -67,8 +67,10 @@ var opMuts = []opMut{
 		raw, _ := opb.B64.DecodeString(s[2])
 		if b.Key.Type == opb.Ed25519 {
 			raw = append(raw, 0)
-		} else {
+		} else if r.Intn(2) == 0 {
 			raw = zeroPadHalves(raw, 1+r.Intn(3))
+		} else {
+			raw = zerosBetweenHalves(raw, pick(r, []int{1, 2, len(raw) / 2}))
 		}
 		s[2] = opb.B64E(raw)
 		b.Compact = strings.Join(s, ".")
@@ -336,6 +338,13 @@ var opMuts = []opMut{
 	}},
 	{"delta/size-at-limit-ok", "cur", func(r *rand.Rand, b *built, cfg M) { cfg["maxDeltaSize"] = len(opb.Canon(b.Delta)) }},
 	{"delta/size-over-limit", "cur", func(r *rand.Rand, b *built, cfg M) { cfg["maxDeltaSize"] = len(opb.Canon(b.Delta)) - 1 }},
+	{"delta/size-over-limit-in-bytes-not-in-characters", "cur", func(r *rand.Rand, b *built, cfg M) {
+		// a delta with two- and three-byte characters: over the limit in bytes, under it in characters
+		ps, _ := deltaM(b)["patches"].([]interface{})
+		deltaM(b)["patches"] = append(append([]interface{}{}, ps...), M{"action": "add-also-known-as", "uris": []interface{}{"https://aka.example/" + strings.Repeat("é中", 3+r.Intn(5))}})
+		rebind(b)
+		cfg["maxDeltaSize"] = len(opb.Canon(b.Delta)) - 1 - r.Intn(3)
+	}},
 	{"delta/hash-mismatch", "cur", func(r *rand.Rand, b *built, cfg M) {
 		other := opb.ModelMH(b.Code, M{"x": ident(r, 4)})
 		if b.Typ == "create" {
